@@ -1559,8 +1559,9 @@ class SimulationTrace(object):
         # print >>file, " ".join(["$date", file_timestamp, "$end"])
         self.internal_names = _VerilogSanitizer('_vcd_tmp_')
         # sorted so the names handed out do not depend on set iteration order
-        for wire in sorted(self.wires_to_track, key=lambda w: w.name):
-            self.internal_names.make_valid_string(wire.name)
+        # (and one name per traced wire, even if wires_to_track lists a wire twice)
+        for name in sorted(self.trace):
+            self.internal_names.make_valid_string(name)
 
         def _varname(wireName):
             """ Converts WireVector names to internal names """
